@@ -484,8 +484,15 @@ func c19TransformCase(r *fw.Rec, idx int) {
 	for rep := 0; rep < 12; rep++ {
 		srcFam := c19TransformFamilies[rng.Intn(5)]
 		dstFam := c19TransformFamilies[(idx+rep)%5]
-		magS := []float64{1, 10, 100, 1000}[rng.Intn(4)] * (1 + rng.Float())
-		magD := []float64{1, 10, 100, 1000}[rng.Intn(4)] * (1 + rng.Float())
+		// units from micro to 1e5: nothing in a projective map depends on the unit of length (pixel-scale
+		// quadrilaterals are only what the readers happen to use), so the answer must be as exact for
+		// normalised or metric coordinates as for pixels
+		mags := []float64{1, 10, 100, 1000, 1, 10, 100, 1000, 1e-6, 1e-4, 1e-2, 1e5}
+		magS := mags[rng.Intn(len(mags))] * (1 + rng.Float())
+		magD := mags[rng.Intn(len(mags))] * (1 + rng.Float())
+		if magS < 0.5 || magD < 0.5 {
+			r.Tally("quad_pairs_in_small_units")
+		}
 		src := c19GenQuad(rng, srcFam, (rng.Float()*6-3)*magS, (rng.Float()*6-3)*magS, magS)
 		dst := c19GenQuad(rng, dstFam, (rng.Float()*6-3)*magD, (rng.Float()*6-3)*magD, magD)
 		if rng.Intn(3) == 0 { // grid-like source: rectangle inset from the origin
@@ -1744,6 +1751,7 @@ func c19(c *fw.Ctx) {
 	c.Floor("quads_with_exactly_one_vanishing_coordinate_sum", 200)
 	c.Floor("corners_checked", 5000)
 	c.Floor("transforms_after_a_call_sharing_corners", 2000)
+	c.Floor("quad_pairs_in_small_units", 500)
 	c.Floor("points_checked_interior", 5000)
 	c.Floor("points_checked_exterior", 5000)
 	c.Floor("cells_asserted", 500000)
